@@ -39,14 +39,14 @@ let event_of (tok : string) : event =
 
 let eval_e2e (args : string list) : string =
   match args with
-  | _mode :: _cm :: ";" :: rest ->
+  | mode :: _cm :: ";" :: rest ->
+    let g = (mode = "g") in
     let toks = match rest with [] -> [] | [ "." ] -> [] | [ t ] -> String.split_on_char ',' t | _ -> failwith "e2e args" in
     let h = List.rev (List.map event_of toks) in      (* newest first *)
-    let l = [ ("late_fetch", mon_late_fetch h); ("late_commit", mon_late_commit h);
-              ("silent", mon_silent h); ("leave", mon_leave h);
-              ("leave_strict", mon_leave_strict h) ] in
+    let l = [ ("late_fetch", mon_late_fetch g h); ("late_commit", mon_late_commit g h);
+              ("silent", mon_silent h); ("leave", mon_leave h) ] in
     (* late_fetch / late_commit together are mon_after_close *)
-    let l = if mon_after_close h = (mon_late_fetch h && mon_late_commit h) then l else ("after_close_split", false) :: l in
+    let l = if mon_after_close g h = (mon_late_fetch g h && mon_late_commit g h) then l else ("after_close_split", false) :: l in
     (match List.filter (fun (_, b) -> not b) l with
      | [] -> "ok"
      | bad -> "FAIL:" ^ String.concat "+" (List.map fst bad))
@@ -82,9 +82,10 @@ let eval_det (args : string list) : string =
     let fetch_one () =
       let c = ncalls () in
       go [LCall KFetch; LFLock (n c)];
-      (match !s.msgs with
-       | _ :: _ -> go [LFRecv (n c)]
-       | [] -> if !s.mclosed then go [LFEof (n c)] else (go [LCtx (n c); LRetCtx (n c)]));
+      if call_res !s c = "blocked" then
+        (match !s.msgs with
+         | _ :: _ -> go [LFRecv (n c)]
+         | [] -> if !s.mclosed then go [LFEof (n c)] else (go [LCtx (n c); LRetCtx (n c)]));
       out := call_res !s c :: !out in
     (try
       if group then begin
@@ -93,7 +94,7 @@ let eval_det (args : string list) : string =
         for _ = 1 to k do fetch_one () done;
         if k > 0 then begin
           let c = ncalls () in
-          go [LCall KCommit; LCEnq (n c)];
+          go [LCall KCommit; LCCheck (n c); LCEnq (n c)];
           if sync then go [LClTake (n 1); LClCommit (n 1, true); LCReply (n c)] else go [LClTake (n 1)];
           out := call_res !s c :: !out
         end;
@@ -142,13 +143,9 @@ let eval_cac (args : string list) (go_res : string) : string =
          LGLeaveCoord true; LGLeaveReq; LRCgWait; LRDone; LCloseStep (n 0); LCloseStep (n 0); LCall KCommit] in
     let allowed = ref [] in
     let add r = if not (List.mem r !allowed) then allowed := r :: !allowed in
-    (match step s0 (LCClosed (n 0)) with Some s -> add (call_res s 0) | None -> ());
-    (match step s0 (LCEnq (n 0)) with
-     | Some s -> (match (List.nth s.calls 0).k_ph with
-                  | PDone r -> add (str_of_res r)
-                  | _ -> (* blocked until its context ends *)
-                    (match run_labels s [LCtx (n 0); LRetCtx (n 0)] with s2 -> add (call_res s2 0)))
-     | None -> ());
+    (* the only step of the new call is its non-blocking closed check *)
+    (match step s0 (LCCheck (n 0)) with Some s -> add (call_res s 0) | None -> ());
+    (match step s0 (LCEnq (n 0)) with Some _ -> add "enqueue" | None -> ());
     (match String.split_on_char ':' go_res with
      | [cp; cx; nl; ot] ->
        let v x = int_of_string ("0x" ^ x) in
@@ -166,7 +163,7 @@ let eval_nlv (_args : string list) : string =
         [LGCoord GOk; LGJoin (JOk (n 0)); LGSync GOk; LGOfetch GOk; LRNextCall; LRNextGen; LRSub (n 0); LRStartC; LRStartU;
          LHbTick (n 0, false); LFnHandler (n 0); LGWaitDone; LGClose;
          LFnSeeDone (n 1); LFnHandler (n 1); LFnSeeDone (n 2); LUnCancel (n 2); LUnJoin (n 2); LFnHandler (n 2); LGJoined;
-         LGCoord GOk; LGJoin (JErr GOther);
+         LGCoord GOk; LGJoin (JErr GOther); LGLeaveCoord true; LGLeaveReq;
          LCloseCall; LCloseStep (n 0); LCloseStep (n 0); LCloseStep (n 0); LCloseStep (n 0);
          LRNextCall; LRNextCtx; LRCgClose; LGOfferAbort; LRCgWait; LRDone; LCloseStep (n 0); LCloseStep (n 0)] in
     let lv = List.length (List.filter (fun e -> match e with EReq (ALeave, m) -> int_of_nat m = 1 | _ -> false) s.hist) in
